@@ -71,7 +71,10 @@ static void gen_object(tb_t *t, int depth)
 	tb_adds(t, "{");
 	for (int i = 0; i < n; i++) {
 		if (i) tb_adds(t, ",");
-		tb_adds(t, "\""); gen_name(t, i); tb_adds(t, "\":");
+		tb_adds(t, "\"");
+		if (i == 0 && vh_below(&rng, 8) == 0) { /* empty member name (valid JSON) */ }
+		else gen_name(t, i);
+		tb_adds(t, "\":");
 		gen_value(t, depth + 1);
 	}
 	tb_adds(t, "}");
@@ -114,9 +117,12 @@ static void gen_members(int which, int route, int is_header)
 		tb_t nmb = { 0 }, v = { 0 };
 		gen_name(&nmb, i);
 		if (i == 0 && vh_below(&rng, 6) == 0) { nmb.n = 0; tb_adds(&nmb, is_header ? (vh_below(&rng, 2) ? "typ" : "alg") : (vh_below(&rng, 2) ? "iat" : "sub")); }
+		if (i == 1 && vh_below(&rng, 5) == 0) { nmb.n = 0; nmb.p[0] = 0; }	/* the empty name: only settable through a merge */
+		if (i == 2 && vh_below(&rng, 12) == 0) { for (int q = 0; q < 40; q++) tb_adds(&nmb, "long-name-"); }
 		m->name = nmb.p;
 		m->sval = NULL;
 		m->kind = 1 + (int)vh_below(&rng, route == 0 ? 5 : 4);
+		if (!m->name[0] && m->kind < 4) m->kind = 5;	/* typed setters refuse an empty name */
 		switch (m->kind) {
 		case 1: gen_int(&v, &m->ival); break;
 		case 2: { tb_t raw = { 0 }; tb_adds(&raw, ""); gen_raw_string(&raw, vh_below(&rng, 60) == 0 ? 65536 : 40); m->sval = raw.p; tb_adds(&v, "\""); tb_adds(&v, raw.p); tb_adds(&v, "\""); break; }
@@ -243,7 +249,8 @@ int main(int argc, char **argv)
 				case 1: jwt_set_SET_INT(&v, m->name, m->ival); break;
 				case 2: jwt_set_SET_STR(&v, m->name, m->sval); break;
 				case 3: jwt_set_SET_BOOL(&v, m->name, (int)m->ival); break;
-				case 4: jwt_set_SET_JSON(&v, m->name, m->text); break;
+				case 4: if (m->name[0]) { jwt_set_SET_JSON(&v, m->name, m->text); break; }
+					/* fall through: an object/array under the empty name goes in by merge */
 				default: {	/* scalars without a typed setter: merge a one-member object */
 					tb_t one = { 0 };
 					tb_adds(&one, "{\""); tb_adds(&one, m->name); tb_adds(&one, "\":"); tb_adds(&one, m->text); tb_adds(&one, "}");
